@@ -35,9 +35,8 @@
 (***************************************************************************)
 EXTENDS Stream, Wire, TLC, Json
 
-CONSTANTS GenIds,     \* indices into Streams generated / explored by this run
-          KMain,      \* number of chosen cut points for packfile, pktline, commit, table
-          KRest,      \* ... for the other kinds
+CONSTANTS KCodes,     \* which streams this run covers and with how many chosen cut points: stream index * 100 + K
+                      \* (a .cfg file cannot hold a function)
           Rot,        \* seeded rotation of the choice
           Cap         \* ContractSpec: field lengths are capped at Cap
 
@@ -126,7 +125,7 @@ Streams == <<
   MkStream("profile", SegsProfile(P2), 0, <<>>)
 >>
 NStreams == Len(Streams)
-MainKinds == {"packfile", "pktline", "commit", "table"}
+GenIds == {c \div 100 : c \in KCodes}
 
 \* (a function constructor stays a lambda in TLC and is re-evaluated at every application: the tables
 \*  are built as explicit tuples)
@@ -151,10 +150,13 @@ CandSet(k) ==
       bounds == {off[i] : i \in 2..Len(plan)}
       mids == {off[i] + plan[i] \div 2 : i \in {j \in 1..Len(plan) : plan[j] >= 2}}
   IN Inside(k, UNION {{b - 1, b, b + 1} : b \in bounds} \cup mids)
-SortedSeq(S) == TabTo(LAMBDA i : CHOOSE c \in S : Cardinality({x \in S : x < c}) = i - 1, Cardinality(S))
+RECURSIVE SortedSeq(_)
+SortedSeq(S) == IF S = {} THEN <<>>
+                ELSE \* (bound through a singleton set: evaluated once)
+                     CHOOSE r \in {<<m>> \o SortedSeq(S \ {m}) : m \in {CHOOSE c \in S : \A x \in S : c <= x}} : TRUE
 CandOf(k) == SortedSeq(CandSet(k))
 CandTab == TabTo(CandOf, NStreams)
-KOf(k) == IF Streams[k].kind \in MainKinds THEN KMain ELSE KRest
+KOf(k) == IF k \in GenIds THEN CHOOSE n \in 0..99 : (k * 100 + n) \in KCodes ELSE 0
 \* K points evenly spread over the candidates, rotated by Rot (all of them if there are at most K)
 ChosenOf(k) ==
   LET cs == CandTab[k]
@@ -172,7 +174,7 @@ Specials(k) ==
 
 (* ---------------- well-formedness of the universe, lemmas ---------------- *)
 ASSUME StreamsWF ==
-  /\ GenIds \subseteq 1..NStreams
+  /\ GenIds \subseteq 1..NStreams /\ Cardinality(GenIds) = Cardinality(KCodes)
   /\ Join(SubSeq(SegsPack(Pack1), 1, 2)) = PackMagic
   /\ WFCommit(C1) /\ FitsCommit(C1) /\ WFCommit(C2) /\ FitsCommit(C2)
   /\ WFTable(T1) /\ FitsTable(T1) /\ WFTable(T2) /\ FitsTable(T2) /\ Len(T1.blocks) >= 2
@@ -188,10 +190,12 @@ ASSUME SchedLemma ==
   \A total \in 1..5 : \A cuts \in SUBSET (1..(total - 1)) : \A ewd \in BOOLEAN : SchedInsideContract(total, cuts, ewd)
 
 (* ---------------- use (A): the contract state machine over the plans of the streams ---------------- *)
-CapPlan(plan) == [i \in 1..Len(plan) |-> Min(plan[i], Cap)]
-GenPlans == {<<CapPlan(PlanTab[k]), Streams[k].probe>> : k \in GenIds}
+CapPlan(plan) == TabTo(LAMBDA i : Min(plan[i], Cap), Len(plan))
 NoSc == <<0, "none", 0, {}, FALSE>>
-ContractInit == Init /\ sc = NoSc
+\* Stream!Init with Plans = the (capped) plans of the streams of this run
+ContractInit == /\ \E k \in GenIds : \E plan \in {CapPlan(PlanTab[k])} :
+                      sp = <<plan, Streams[k].probe>> /\ pos = 0 /\ d = DecStart(plan, Streams[k].probe)
+                /\ sc = NoSc
 ContractNext == Next /\ UNCHANGED sc
 ContractSpec == ContractInit /\ [][ContractNext]_<<vars, sc>> /\ WF_<<vars, sc>>(ContractNext)
 
